@@ -16,7 +16,9 @@ RULE = ("generated: programs of 3-40 statements inside D9 (double/single-operand
         "via a prepended '.link b' (even, mixed parity, near 0, near 0o177776 incl. wrap where a label >= 2^16 makes an absolute word fail). "
         "Also position-independent programs (own labels and '.' only through branches, sob and relative operands, no absolute reference) at "
         "triples with link bases where the addresses wrap through 0o177777: they must assemble at every base, to identical images. "
-        "Also programs with 1-2 included files (impl.assemble fs=): ordinary includes, whose labels move with the main base, and overlays whose "
+        "Also two linked files: a definitions file exporting constants (name == const) and labels (name::), and a main program that defines some "
+        "of the same names as its own labels further down and uses every name before and after; by the scoping rule (own definition first, "
+        "wherever it stands) exactly the references that resolve to labels move by delta. Also programs with 1-2 included files (impl.assemble fs=): ordinary includes, whose labels move with the main base, and overlays whose "
         "first statement is '. = N' or '.link N' (N well above and below the main bases), whose labels are fixed; absolute and relative "
         "references in both directions between main and included code through exported labels; these are judged by the law alone and must "
         "assemble at every base where they fit. Oracle (model-free, judged in Coq): word-wise differences of every pair of successful images are exactly coefficient*delta at "
@@ -656,12 +658,73 @@ def make_inc_case(rng):
             "kinds": sorted({k for k, _ in regions})}
 
 
+def make_shadow_case(rng):
+    """two linked files: a definitions file that exports constants (`name == const`) and labels (`name::`), and a main
+    program that defines some of the same names privately as its own labels FURTHER DOWN and uses every name before and
+    after that point.  Scoping rule: the file's own definition wins wherever it stands.  So a reference moves with the
+    base iff it resolves to a label (own or exported); a reference to an exported constant that is not shadowed does not."""
+    consts = ["scr%d" % i for i in range(rng.randint(2, 4))]
+    exlabs = ["ent%d" % i for i in range(rng.randint(0, 2))]
+    A, offA = [], 0
+    for nme in consts:
+        A.append("%s == %o" % (nme, rng.choice([0o40000, 0o100, 0o157776, 0o2000, 0o177000])))
+    for nme in exlabs:
+        for _ in range(rng.randint(0, 2)):
+            A.append("\tnop"); offA += 2
+        A.append(nme + "::")
+        A.append("\t.word %o" % rng.randrange(0o1000)); offA += 2
+    rng.shuffle(consts)
+    shadow = consts[:rng.randint(1, len(consts))]
+    own = ["own%d" % i for i in range(rng.randint(0, 2))]
+    coef = {n: 0 for n in consts}
+    coef.update({n: 1 for n in shadow + exlabs + own})
+    names = consts + exlabs + own
+    nst = rng.randint(4, 12)
+    defs = shadow + own
+    slots = {}
+    for n in defs:
+        slots.setdefault(rng.randint(1, nst), []).append(n)     # never before the first statement: used before defined
+    B, aw, off = [], [], offA
+    for k in range(nst + 1):
+        for n in slots.get(k, []):
+            B.append(n + ":")
+        if k == nst:
+            break
+        n1 = rng.choice(names if rng.random() < 0.5 else shadow)
+        kk = rng.choice([0, 0, 2, 4])
+        t = n1 + ("+%o" % kk if kk else "")
+        r = rng.random()
+        if r < 0.3:
+            B.append("\tmov #%s, r%d" % (t, rng.randrange(6))); ws = [(2, coef[n1])]; size = 4
+        elif r < 0.5:
+            B.append("\tjsr pc, @#%s" % t); ws = [(2, coef[n1])]; size = 4
+        elif r < 0.7:
+            B.append("\tmov %s, r%d" % (t, rng.randrange(6))); ws = [(2, coef[n1] - 1)]; size = 4
+        elif r < 0.8:
+            B.append("\tclr %s(r%d)" % (t, rng.choice([1, 2, 7]))); ws = [(2, coef[n1])]; size = 4
+        elif r < 0.93:
+            n2 = rng.choice(names)
+            B.append("\t.word %s, %s" % (t, n2)); ws = [(0, coef[n1]), (2, coef[n2])]; size = 4
+        else:
+            B.append("\tnop"); ws = []; size = 2
+        for o, c in ws:
+            if c:
+                aw.append((off + o, c))
+        off += size
+    pool = [0o1000, 0o2000, 0o3000, 0o20000, 0o60000, 0o400, 0o100000]
+    return {"bases": rng.sample(pool, 3), "defs": "\n".join(A) + "\n", "main": "\n".join(B) + "\n", "fs": None, "aw": aw, "total": off,
+            "last": [rng.random() < 0.3 for _ in range(3)], "kinds": ["linked-defs", "shadowed:%d" % len(shadow)]}
+
+
 def inc_files(c, b, last):
+    if "defs" in c:
+        return [("defs.mac", c["defs"] if last else ".link %o\n%s" % (b, c["defs"])),
+                ("main.mac", ("%s\t.link %o\n" % (c["main"], b)) if last else c["main"])]
     return [("main.mac", ("%s\t.link %o\n" % (c["main"], b)) if last else (".link %o\n%s" % (b, c["main"])))]
 
 
 def run_inc_cases(rep, cases, tag):
-    jobs = [((inc_files(c, b, last),), {"fs": c["fs"]}) for c in cases for b, last in zip(c["bases"], c["last"])]
+    jobs = [((inc_files(c, b, last),), ({"fs": c["fs"]} if c["fs"] is not None else {})) for c in cases for b, last in zip(c["bases"], c["last"])]
     outs = impl.pmap("assemble", jobs)
     terms = []
     for n, c in enumerate(cases):
@@ -681,8 +744,10 @@ def run_inc_cases(rep, cases, tag):
         oks = [(b, list(bytes.fromhex(o["code"]))) for b, o in zip(c["bases"], c["outs"]) if o["outcome"] == "ok"]
         rep.count("include-bases-ok:%d" % len(oks))
         if len(oks) >= 2 and c["aw"]:
-            rep.nontrivial(c["main"] + str(sorted(c["fs"].items())))
+            rep.nontrivial(c["main"] + str(sorted((c["fs"] or {"defs": c.get("defs")}).items())))
         inp = {"main": c["main"], "fs": c["fs"], "bases": c["bases"], "link_last": c["last"], "abs_by_construction": c["aw"]}
+        if "defs" in c:
+            inp["defs"] = c["defs"]
         obs = [{"base": b, "outcome": o["outcome"], "code": o.get("code"),
                 "errors": sorted({d[1] for d in o["diags"] if d[0] != "warning"}), "crash": o.get("crash")} for b, o in zip(c["bases"], c["outs"])]
         if any(o["outcome"] in ("crash", "hang", "harness-error") for o in c["outs"]):
@@ -711,6 +776,7 @@ def explore(rep, br, tier, seed):
     cases = [make_case(rng) for _ in range(n)] + [make_pic_case(rng) for _ in range(n // 6)]
     run_cases(rep, cases, "")
     inc = [make_inc_case(rng) for _ in range(120 if tier == "quick" else 1500)]
+    inc += [make_shadow_case(rng) for _ in range(80 if tier == "quick" else 1000)]
     run_inc_cases(rep, inc, "_inc")
     rep.sample({"bases": inc[0]["bases"], "main": inc[0]["main"][:300], "included": {k: v[:200] for k, v in inc[0]["fs"].items()}})
     for c in cases[:3]:
@@ -724,7 +790,7 @@ def search(rep, br, tier, seed):
     sub = C.Report(ID, tier, seed)
     cases = [make_case(rng) for _ in range(900 if tier == "quick" else 3000)]
     run_cases(sub, cases, "_search")
-    run_inc_cases(sub, [make_inc_case(rng) for _ in range(300)], "_search_inc")
+    run_inc_cases(sub, [make_inc_case(rng) for _ in range(300)] + [make_shadow_case(rng) for _ in range(200)], "_search_inc")
     rep.violations += sub.violations
     rep.evaluations += sub.evaluations
 
@@ -735,7 +801,7 @@ def replay(data):
         aw = [tuple(x) for x in inp.get("abs_by_construction", [])]
         res = []
         for b, last in zip(inp["bases"], inp.get("link_last", [False] * 3)):
-            o = impl.assemble(inc_files(inp, b, last), fs=inp["fs"])
+            o = impl.assemble(inc_files(inp, b, last), **({"fs": inp["fs"]} if inp.get("fs") is not None else {}))
             print("base %o:" % b, o["outcome"], o.get("code"), sorted({d[1] for d in o["diags"] if d[0] != "warning"}))
             res.append((b, o))
         oks = [(b, list(bytes.fromhex(o["code"]))) for b, o in res if o["outcome"] == "ok"]
